@@ -15,6 +15,9 @@ import EPV.Gen.Cog19
 import EPV.Gen.Noh2
 import EPV.Gen.Noh2Cog
 import EPV.Gen.Cog1
+import EPV.Lemmas.HydroRobust
+import EPV.Lemmas.Bridge.Noh
+import EPV.Lemmas.Bridge.Cog19
 import EPV.Tactics
 
 set_option linter.all false
@@ -32,7 +35,8 @@ def nohOfCog19 (q : Cog19.P) : Noh.P := ⟨q.gamma, q.geometry, q.rho0, q.u0⟩
 /-- both solvers put the shock at the same place (u₀ ≤ 0: |u₀| = -u₀) -/
 theorem noh_cog19_branch (q : Cog19.P) (r t : ℝ) (hu : q.u0 ≤ 0) :
     Noh.c0 (nohOfCog19 q) r t ↔ Cog19.c0 q r t := by
-  simp only [epv_cond, nohOfCog19, abs_of_nonpos hu]
+  rw [EPV.Bridge.noh_c0_iff, EPV.Bridge.cog19_c0_iff]
+  simp only [nohOfCog19, abs_of_nonpos hu]
   constructor <;> intro h <;> linarith
 
 theorem noh_cog19_outcome (q : Cog19.P) (r t : ℝ) :
@@ -53,13 +57,11 @@ theorem noh_eq_cog19 (q : Cog19.P) (r t : ℝ) (hu : q.u0 ≤ 0) (hγ : 1 < q.ga
   have hb := noh_cog19_branch q r t hu
   have hA : 0 < (q.gamma + 1) / (q.gamma - 1) := div_pos (by linarith) (by linarith)
   have hg1 : q.gamma - 1 ≠ 0 := by linarith
-  have hP := (Real.rpow_pos_of_pos hA q.geometry).ne'
-  have hq : 1 + -q.u0 * t / r = (r - q.u0 * t) / r := by field_simp; ring
+  have hg2 : 0 < q.gamma - 1 := by linarith
+  have hg3 : 0 < q.gamma + 1 := by linarith
   simp only [epv_tree, hb]
   refine ⟨?_, ?_, ?_, ?_, ?_, ?_⟩ <;> split_ifs <;>
-    simp only [epv_leaf, nohOfCog19, abs_of_nonpos hu, sub_add_cancel, hq]
-  all_goals generalize ((q.gamma + 1) / (q.gamma - 1)) ^ q.geometry = B at hP ⊢
-  all_goals first | ring1 | (field_simp; done) | (field_simp; ring1)
+    simp only [epv_leaf, nohOfCog19, abs_of_nonpos hu] <;> epv_hydro_closed
 
 example : ∃ q : Cog19.P, ∃ r : ℝ, q.u0 ≤ 0 ∧ 1 < q.gamma ∧ q.rho0 ≠ 0 ∧ q.Gamma ≠ 0 ∧ r ≠ 0 :=
   ⟨⟨40, 1, 1, 1, 1, 7 / 5, 3, 1, 9 / 5, -23 / 10⟩, 1, by norm_num, by norm_num, by norm_num, by norm_num, by norm_num⟩
@@ -89,20 +91,13 @@ theorem noh2_eq_noh2cog (p : Noh2.P) (r t : ℝ)
     Noh2Cog.position (noh2cogOf p) r t = Noh2.position p r t := by
   have h1 : 0 < 1 - t := by linarith
   have hg1 : p.gamma - 1 ≠ 0 := sub_ne_zero.mpr hγ
-  have e1 : (0 : ℝ) - (p.geometry - 1) - 1 = -p.geometry := by ring
-  have e2 : (0 : ℝ) - (p.gamma - 1) * (p.geometry - 1 + 1) = -((p.gamma - 1) * p.geometry) := by ring
-  have hP1 := (Real.rpow_pos_of_pos h1 p.geometry).ne'
-  have hP2 := (Real.rpow_pos_of_pos h1 ((p.gamma - 1) * p.geometry)).ne'
   have c1 : ¬ (1 ≤ t) := by linarith
   have c4 : ¬ (1 - t ≤ 0) := by linarith
   simp only [epv_tree, epv_cond, noh2cogOf, c1, c4, if_false]
-  refine ⟨?_, ?_, ?_, ?_, ?_⟩ <;> split_ifs <;> (try simp only [epv_leaf, e1, e2, Real.rpow_neg h1.le])
+  refine ⟨?_, ?_, ?_, ?_, ?_⟩ <;> split_ifs <;> (try simp only [epv_leaf, pow_zero])
   all_goals first
     | (exfalso; tauto)
-    | rfl
-    | ring1
-    | ((try simp only [pow_zero]); field_simp; done)
-    | ((try simp only [pow_zero]); field_simp; ring1)
+    | epv_hydro_closed
 
 example : ∃ p : Noh2.P, ∃ t : ℝ, (p.geometry = 1 ∨ p.geometry = 2 ∨ p.geometry = 3) ∧ t < 1 ∧ p.gamma ≠ 1 ∧ p.rho0 ≠ 0 :=
   ⟨⟨1, 5 / 3, 3, 1⟩, 1 / 2, by norm_num, by norm_num, by norm_num, by norm_num⟩
@@ -135,8 +130,7 @@ theorem noh2cog_eq_cog1 (p : Noh2Cog.P) (q : Cog1.P) (r t : ℝ) (hq : IsNoh2Cog
     (try simp only [epv_leaf, hG, hb, hγ, hgeo, hρ, hT, neg_zero, Real.rpow_zero, pow_zero])
   all_goals first
     | (exfalso; tauto)
-    | rfl
-    | ring1
+    | epv_hydro_closed
 
 /-- both routes return numbers on that domain -/
 theorem noh2cog_cog1_outcome (p : Noh2Cog.P) (q : Cog1.P) (r t : ℝ)
